@@ -60,7 +60,7 @@ CHECKS = {
         'pitch at the ends.',
    note='Trusted: Coq kernel with the Reals axioms (sig_forall_dec, sig_not_dec, functional_extensionality_dep) and '
         'Classical_Prop.classic (through acos); numpy trigonometry and scipy BPoly as oracles; float32 tolerance 5e-6*(1+|v|); '
-        'interior points of sinusoidal / spline curves are not characterised.',
+        'interior points of sinusoidal / spline curves are not characterised. Source tie: harness/py2coq.py and coq/tie/LbState.v (add_path as an append with the feed guard, one-element numpy arrays read as their element, the square root kept as its radicand, num_subdivisions of a square root as an oracle in the subdivided branch) are trusted.',
    design='5/C04'),
  'C10': dict(
    technique='Coq proof (invariant over all histories of the single store point add_path and of the single print point _format_args, with the float32 cast modelled) + source translator (LaserPath.add_path translated and proved - for any reading of the float32 conversion, isfinite and > 0 - to store only checked values; equal to the model on the extended numbers; the raster builder proved to store through add_path only) + degenerate-value differential on every builder in resource-limited child processes',
@@ -72,7 +72,7 @@ CHECKS = {
         'lexed (a non-fixed-point number is an error).',
    note='Trusted: Coq kernel; that every builder stores through add_path / prints through _format_args is observed, not proved; '
         'IEEE overflow and NaN generation inside numpy are not modelled; femto runs under RLIMIT_AS 4 GiB and a 2 s per-call '
-        'limit (resource exhaustion counts as raising).',
+        'limit (resource exhaustion counts as raising). Source tie: harness/py2coq.py and coq/tie/NpState.v (np.all / np.append / astype on arrays) are trusted; SRC_C10_store_point / SRC_C10_history assume the float32 conversion idempotent (a section hypothesis, not an axiom).',
    design='5/C10'),
  'C17': dict(
    technique='Coq proof for an arbitrary surface function s (x, y untouched; z\' = k (z + s(x,y)); flat surface = plain transform) + value-level differential with scipy\'s interpolant as oracle, sample reproduction and smoothness checks + source translator (transform_points with compensate translated and proved to be tr_warp_gen - the surface height added to z before the rigid map, x and y untouched: coq/tie/EquivTp.v)',
@@ -83,7 +83,7 @@ CHECKS = {
         'with and without the flag; the interpolant must reproduce every sample (1e-5) and stay within half the piecewise-linear '
         'error bound of the sampled smooth surface between samples.',
    note='Trusted: Coq kernel; scipy RBF solve and the smoothness of its interpolant (numerical evidence only); libm cos/sin; '
-        'float32 addition of the correction modelled exactly (rnd32).',
+        'float32 addition of the correction modelled exactly (rnd32). Source tie: harness/py2coq.py and coq/tie/TpState.v are trusted (the surface interpolant is an oracle function; SRC_C17_transform_points_warp assumes that converting a float32 result to float32 changes nothing).',
    design='5/C17'),
  'C02': dict(
    technique='Coq proof over Q (ring identities: order of the maps, isometry, z scaling, orientation, origin, identity) and over R (degree periodicity) + value-level differential at every call site + source translator (transform_points / flip / t_matrix / compensate translated over vectors and matrices and proved, point by point and for any float32 rounding, to be tr_gen: coq/tie/EquivTp.v)',
@@ -95,7 +95,7 @@ CHECKS = {
         'special angles (negative, > 360, 0, None), shifts, flips and indices.',
    note='Trusted: Coq kernel (Reals axioms for the three degree theorems: sig_forall_dec, sig_not_dec, functional_extensionality_dep); '
         'libm cos/sin; float64 matmul noise within 1e-12 relative; the float32 shift subtraction is modelled exactly (rnd32), the '
-        'float64 promotion of 0-d inputs as tr_scalar.',
+        'float64 promotion of 0-d inputs as tr_scalar. Source tie: harness/py2coq.py and coq/tie/TpState.v (numpy\'s matmul / stack / transpose on rationals, float32 conversion and arithmetic as two rounding parameters, cos / sin of the angle as oracle values) are trusted.',
    design='5/C02'),
  'C18': dict(
    technique='Coq proof (stable sort is a sorted permutation; table shape; cell = attribute; column-omission iff; preamble rule) + cell-level differential reading the .xlsx back + source translator: Spreadsheet._get_structure_list is re-translated from /repo on every run and proved to be the model\'s structure_list (coq/tie/EquivSs.v)',
@@ -191,7 +191,7 @@ CHECKS = {
         'black pixels (C11 run theorems). Tie to /repo: image_to_path is run on every image with w*h <= 8 (quick) / 12 (thorough) '
         'and on random images in modes 1/L/RGB; the recorded trajectory is compared point by point with the model and the '
         'strokes of femto\'s raw trajectory and of its points matrix are compared with the specified strokes.',
-   note='Trusted: Coq kernel; PIL conversion as oracle; float32 tolerance 2.5e-7 relative on coordinates.',
+   note='Trusted: Coq kernel; PIL conversion as oracle; float32 tolerance 2.5e-7 relative on coordinates. Source tie: harness/py2coq.py, coq/tie/RiState.v (PIL conversion to mode 1 as an oracle matrix, linspace, ones_like, add_path as the zip of its arrays) and coq/tie/NpState.v are trusted.',
    design='5/C15'),
  'C03': dict(
    technique='Coq proof (nested induction over op trees / loop trees: parse-flatten inversion, well-formed emission under exceptions) + source translator with a proved simulation (every translated method of PGMCompiler vs the model) + history-level differential with exceptions (Exception and BaseException) injected at every position + controller monitors on femto\'s own file',
